@@ -52,10 +52,12 @@ META = {
         'levelOk_partner / partner_adjoint / flag_cycle_symmetric cover hierarchies whose installed smoothers are gauss_seidel, sor, '
         'jacobi, cf_/fc_jacobi (no spectral rescaling), block_gauss_seidel / block_jacobi with block size 1, or None; Chebyshev, '
         'Richardson, Schwarz, larger blocks and spectral rescaling have no adjointness theorem',
-        'the executable array model of the cycle (denseM, compared with the real M) and the operator-level theorems (Mop, smOp) are '
-        'tied per instance by exact checks computed in Lean (M equals the Mop formula evaluated with the smoother matrices, '
-        'post-smoother matrix = transpose-conjugate of the pre-smoother matrix on every level, M = M^H), not by a refinement proof; '
-        'refinement is proved for the Gauss-Seidel kernel only (gaussSeidel_refines, gs_isLinIter, jac_isLinIter at function level)',
+        'real case: the executable array model of the cycle (denseM, compared with the real M) is proved to be the matrix of the '
+        'textbook operator MopL/Mop over smOp (denseM_is_textbook_operator, denseM_is_Mop) and to be symmetric when the flag is True '
+        '(flag_denseM_symmetric; hypotheses: matching shapes, one stored non-zero diagonal entry per row, symmetric level matrices, '
+        'R = P^T as CSR operators); complex (Gaussian-rational) case: denseM and the operator-level theorems are still tied per '
+        'instance by exact checks computed in Lean (M equals the Mop formula evaluated with the smoother matrices, post-smoother '
+        'matrix = transpose-conjugate of the pre-smoother matrix on every level, M = M^H), not by a refinement proof',
     ],
     'assumptions': [
         'R = P^H, A Hermitian on every level, non-singular coarsest matrix solved exactly (pinv/splu/lu/cholesky): checked per '
